@@ -3,6 +3,7 @@ package e3dial
 import (
 	"fmt"
 	"math/rand/v2"
+	"strings"
 	"time"
 
 	"verifsim/core"
@@ -76,6 +77,9 @@ func genHosts(r *rand.Rand, n int) (hosts []string, network string) {
 	return hosts, network
 }
 
+// invalidHost is refused by the resolver without any lookup.
+var invalidHost = strings.Repeat("x", 64) + ".invalid:443"
+
 func contains(xs []string, s string) bool {
 	for _, x := range xs {
 		if x == s {
@@ -97,6 +101,13 @@ func genC18(s uint64, idx int, tier string) *Plan {
 	p.Hosts, p.Network = genHosts(r, n)
 	p.MaxConc = r.IntN(5)
 	p.Tie = core.Chance(r, 1, 5)
+	if !p.Tie && len(p.Hosts) > 0 && n > 0 && core.Chance(r, 1, 8) {
+		// one of the comma-separated addresses cannot be resolved at all (a label
+		// of 64 octets is refused before any query is made): a failure that takes
+		// no time, after which the remaining addresses are still due
+		at := r.IntN(len(p.Hosts) + 1)
+		p.Hosts = append(p.Hosts[:at:at], append([]string{invalidHost}, p.Hosts[at:]...)...)
+	}
 
 	us := int64(time.Microsecond)
 	ms := int64(time.Millisecond)
